@@ -6,5 +6,6 @@ CONSTANTS
   MaxLevel = 6
   Inits = {"empty"}
   Patterns = {"rand"}
+  Keeps = {FALSE}
   Emit = "state"
 INVARIANTS EmitCase
